@@ -310,7 +310,7 @@ REGISTRY = {
         "assumptions": QUERY_ASSUMPTIONS + ["jsoniter's scalar encoder is an oracle checked by the strict parser, not modelled"],
     },
     "C02": {
-        "lean_modules": ["C02"],
+        "lean_modules": ["C02", "C02Members"],
         "run": worldfam.run_c02,
         "rule": "lmd peers are synchronised (real Peer.InitAllTables over unix sockets) from scripted Livestatus backends of flavours naemon/icinga2/shinken/plain with random optional-column sets, "
                 "rows delivered in shuffled order, strings of 0-3000 bytes with control bytes and quotes, equal and near-equal lists, numbers at and beyond the column ranges, MaxParallelPeerConnections 1 and 3; "
@@ -362,7 +362,7 @@ REGISTRY = {
         "assumptions": ["virtual clock", "MaxParallelPeerConnections 1 (serial rebuild, so that the failing fetch is determined)", "Icinga2 count-probe reload is not modelled"],
     },
     "C18": {
-        "lean_modules": ["C18", "C18Nodes", "C18Dist"],
+        "lean_modules": ["C18", "C18Nodes", "C18Dist", "C18Compose"],
         "run": c18.run,
         "rule": "exhaustive: every cluster shape with 1-4 nodes, every non-empty subset of online nodes, every own index among the online nodes, 0-8 backends (thorough: 0-12); Nodes.redistribute is run in-package and compared with Lmd.redistribute, "
                 "and the partition / offline / evenness statements are evaluated on the implementation's assignment; non-trivial = at least two backends and two online nodes. "
